@@ -1,7 +1,7 @@
 import LLRP.Proofs.LayoutFields
 /-!
 C02: the encoder's parameter writer is the declarative layout (mutual induction on the shared fuel), and the
-`paramHeader.sz` that `getHeader` computes is the number of bytes written, modulo 2^16.
+`paramHeader.sz` that `getHeader` computes is the number of bytes written.
 -/
 namespace LLRP
 open Layout
@@ -51,7 +51,7 @@ mutual
 theorem encParam_layout (S : Schema) (hS : layoutWF S = true) : ∀ (fuel : Nat) (ty : String) (v : Val),
     fitsParam S fuel ty v = true →
     encParam S fuel ty v = Layout.param S fuel ty v ∧
-      szParam S fuel ty v = (encParam S fuel ty v).length % 65536
+      szParam S fuel ty v = (encParam S fuel ty v).length
   | 0, _, _, h => by simp [fitsParam] at h
   | fuel+1, ty, .node fs subs, h => by
     cases hc : S.param? ty with
@@ -62,7 +62,7 @@ theorem encParam_layout (S : Schema) (hS : layoutWF S = true) : ∀ (fuel : Nat)
       have hwf := layoutWF_of_mem hS (param?_mem hc)
       have hmsg := param?_notMsg hc
       have hF := encFields_eq_layout c.fields fs 0 0 hwf hff (by simp)
-      have hFsz := fieldsSz_mod c.fields fs 0 0 hwf hff
+      have hFsz := fieldsSz_exact c.fields fs 0 0 hwf hff
       obtain ⟨hSl, hSlsz⟩ := encSlots_layout S hS fuel c.slots subs none none hfs
       simp only [encParam, Layout.param, szParam, hc, hF, hSl]
       rw [hF] at hFsz
@@ -86,7 +86,7 @@ theorem encSlots_layout (S : Schema) (hS : layoutWF S = true) : ∀ (fuel : Nat)
     (st : Option (String × Bool)) (done : Option String),
     fitsSlots S fuel ss vss st = true →
     encSlots S fuel ss vss done = Layout.slots S fuel ss vss done ∧
-      szSlots S fuel ss vss done % 65536 = (encSlots S fuel ss vss done).length % 65536
+      szSlots S fuel ss vss done = (encSlots S fuel ss vss done).length
   | 0, _, _, _, _, h => by simp [fitsSlots] at h
   | fuel+1, [], [], _, _, _ => by simp [encSlots, Layout.slots, szSlots]
   | fuel+1, [], _ :: _, _, _, h => by simp [fitsSlots] at h
@@ -116,7 +116,7 @@ theorem encSlots_layout (S : Schema) (hS : layoutWF S = true) : ∀ (fuel : Nat)
 theorem encList_layout (S : Schema) (hS : layoutWF S = true) : ∀ (fuel : Nat) (ty : String) (vs : List Val),
     fitsList S fuel ty vs = true →
     encList S fuel ty vs = Layout.params S fuel ty vs ∧
-      szList S fuel ty vs % 65536 = (encList S fuel ty vs).length % 65536
+      szList S fuel ty vs = (encList S fuel ty vs).length
   | 0, _, _, h => by simp [fitsList] at h
   | fuel+1, _, [], _ => by simp [encList, Layout.params, szList]
   | fuel+1, ty, v :: vs, h => by
